@@ -101,6 +101,7 @@ class State:
                 raise AssertionError(f"harness: telecommand {i} does not start with the intended request id octets")
         self.model = {}  # u32 -> status dict
         self.ever_finished = set()
+        self.answers = []  # (answer object, its completed flag when it was returned): callers collect answers and read them later
 
     @staticmethod
     def _tc(PusTc, t):
@@ -220,6 +221,10 @@ class TrackerMachine(HistorySpec):
                 else:
                     eq(devs, "add_tm.completed_flag", bool(res.completed), flag, f"report {a}")
                     eq(devs, "add_tm.result_status", obs_status(res.status), s.model[k], f"report {a}")
+                    for old_res, old_flag in s.answers[-4:]:
+                        if old_res is not res or bool(res.completed) != flag:
+                            eq(devs, "add_tm.earlier_answer_completed_flag", bool(old_res.completed), old_flag, "an answer returned earlier changed when a later report was added")
+                    s.answers.append((res, bool(res.completed)))
         elif name == "remove_entry":
             k = s.key[a]
             got = s.real.remove_entry(s.req[a])
